@@ -371,6 +371,217 @@ def gen_single_record_case(rng, ctx):
     return spf_line('d0.example.com', s, zone)
 
 
+# ---------------------------------------------------------------------------------------------
+# RFC-shaped stream: records from the RFC 7208 grammar (plus clear syntax errors), zones in which the
+# A / AAAA data seen through dnsip4 and dnsip6 agree, reverse name known to the session iff there is a
+# PTR record.  The answers for these cases are also compared with the reference evaluation.
+
+MACROS_RFC = ['%{d}', '%{d2}', '%{d1r}', '%{dr}', '%{o}', '%{l}', '%{l-}', '%{lr+-}', '%{s}', '%{i}', '%{ir}', '%{v}', '%{h}',
+              '%{p}', '%{D}', '%{S}', '%{L}', '%{O1}', '%{d.-+,/_=}', '%%', '%_', '%-', '%{d255}', '%{H}', '%{ir2}', '%{i4}', '%{p2r}']
+TERMS_BAD = ['!all', 'all:', 'al', 'include', 'include:', 'a:', 'a:/24', 'a/33', 'a//129', 'a/24/64', 'mx/', 'ptr/24', 'ip4', 'ip4:', 'ip4:1.2.3', 'ip4:1.2.3.4/33',
+             'ip4:1.2.3.256', 'ip6:1::2::3', 'ip6:::1/129', 'exists', 'exists:', 'a:%{x}.example.com', 'a:%{d0}', 'a:%{c}.example.com', 'include:example', 'a:example.c0m.',
+             'redirect=', 'foo', '=bar', 'foo=%', 'foo=%{', 'foo=%{z}', '-redirect=d1.example.com', 'ip6:1.2.3.4', 'ip4:::1', 'a:d0.example.123', 'mx:.', 'a:..',
+             'exists:%{d', 'include:d1.example.com/24', 'exp=%{x}', 'A:%{d}%', '~', '+', 'a:d1.example.com//', 'a:d1.example.com/', 'mx:d1.example.com/24//']
+
+
+def rfc_domainspec(rng, names, p_macro=0.25):
+    base = rng.choice(names)
+    if rng.random() > p_macro:
+        return base + ('.' if rng.random() < 0.05 else '')
+    m = rng.choice(MACROS_RFC)
+    k = rng.random()
+    if k < 0.3:
+        return m
+    if k < 0.7:
+        return m + '.' + base
+    return rng.choice(MACROS_RFC) + '.' + m + '._spf.' + base
+
+
+def rfc_cidr(rng, p=0.25):
+    if rng.random() > p:
+        return ''
+    v4 = str(rng.choice([0, 1, 7, 8, 16, 24, 25, 31, 32]))
+    v6 = str(rng.choice([0, 1, 7, 8, 32, 64, 127, 128]))
+    k = rng.random()
+    return '/' + v4 if k < 0.5 else '//' + v6 if k < 0.75 else '/' + v4 + '//' + v6
+
+
+def rfc_term(rng, names, hit, inc_names=None, p_bad=0.04):
+    if rng.random() < p_bad:
+        return rng.choice(TERMS_BAD)
+    q = rng.choice(['', '', '', '-', '~', '+', '?'])
+    inc = inc_names or names
+    k = rng.random()
+    if k < 0.08:
+        t = 'all'
+    elif k < 0.24:
+        t = 'a' + rng.choice(['', ':' + rfc_domainspec(rng, names)]) + rfc_cidr(rng)
+    elif k < 0.36:
+        t = 'mx' + rng.choice(['', ':' + rfc_domainspec(rng, names)]) + rfc_cidr(rng)
+    elif k < 0.44:
+        t = 'ptr' + rng.choice(['', ':' + rfc_domainspec(rng, names + OTHER, 0.1)])
+    elif k < 0.56:
+        base = hit if (':' not in hit and rng.random() < 0.4) else rng.choice(V4)
+        t = 'ip4:' + base + rng.choice(['', '', '/32', '/24', '/8', '/7', '/1', '/0', '/31'])
+    elif k < 0.66:
+        base = hit if (':' in hit and rng.random() < 0.4) else rng.choice(V6 + ['2001:DB8::1', '2001:db8:0:0:0:0:0:1', '::ffff:192.0.2.1', '0:0:0:0:0:0:192.0.2.1'])
+        t = 'ip6:' + base + rng.choice(['', '', '/128', '/64', '/32', '/8', '/7', '/0'])
+    elif k < 0.74:
+        t = 'exists:' + rfc_domainspec(rng, names, 0.6)
+    elif k < 0.88:
+        t = 'include:' + rfc_domainspec(rng, inc, 0.1)
+    elif k < 0.93:
+        return 'redirect=' + rfc_domainspec(rng, inc, 0.1)
+    elif k < 0.96:
+        return rng.choice(['exp=', 'exp=', 'EXP=']) + rng.choice(['explain.example.com', 'exp2.example.com', '%{d}.explain.example.com', ''])
+    else:
+        return rng.choice(['foo', 'x-y_z.1', 'm']) + '=' + rng.choice(['bar', '%{d}', '%{p}', 'a%%b', '%{i}.%{d2}', ''])
+    if rng.random() < 0.06:
+        t = ''.join(c.upper() if rng.random() < 0.5 else c for c in t)
+    return q + t
+
+
+def rfc_record(rng, names, hit, nterms=None, inc_names=None, p_bad=0.04):
+    n = nterms if nterms is not None else rng.choice([0, 1, 1, 2, 2, 3, 3, 4, 5, 7])
+    terms = [rfc_term(rng, names, hit, inc_names, p_bad) for _ in range(n)]
+    if rng.random() < 0.6:
+        terms.append(rng.choice(['-all', '~all', '?all', '+all', 'all']))
+        if rng.random() < 0.15:
+            rng.shuffle(terms)
+    rec = 'v=spf1' + ''.join(rng.choice([' ', ' ', ' ', '  ']) + t for t in terms)
+    if rng.random() < 0.05:
+        rec += ' '
+    return rec.encode('latin1')
+
+
+def rfc_addr_data(rng, zone, names, hit, p_err=0.06):
+    is6 = ':' in hit
+    for n in names:
+        if rng.random() < p_err:
+            e = rng.choice(ERRNOS)
+            zone.append(zE('A', n, e)); zone.append(zE('Q', n, e))
+        else:
+            a = [rng.choice(V4) for _ in range(rng.choice([0, 1, 1, 2, 3]))]
+            a6 = [rng.choice(V6) for _ in range(rng.choice([0, 0, 1, 2]))]
+            if rng.random() < 0.3:
+                if is6:
+                    a6.append(hit)
+                else:
+                    a.append(hit)
+            if a:
+                zone.append(zA(n, a))
+            if a or a6:
+                zone.append(zQ(n, a6 + a))
+        r = rng.random()
+        if r < 0.35:
+            k = rng.choice([1, 1, 2, 3, 9, 10, 11, 12])
+            mx = [(rng.choice([0, 5, 10, 65535]), rng.choice(names)) for _ in range(k)]
+            if rng.random() < 0.05:
+                mx = [(0, '.')]
+            zone.append(zM(n, mx))
+        elif r < 0.4:
+            zone.append(zE('M', n, rng.choice(ERRNOS)))
+    r = rng.random()
+    rhost = b''
+    if r < 0.55:
+        rhost = rng.choice(names + ['MAIL.' + names[0], 'x' + names[0]]).encode()
+        zone.append(zP(hit, rhost))
+    elif r < 0.65:
+        zone.append(zE('P', hit, rng.choice(ERRNOS)))
+    return rhost
+
+
+def rfc_session(rng, hit, rhost):
+    mf = rng.choice([b'user@d0.example.com', b'user@d1.example.com', b'', b'a-b+c.d@d2.example.com', b'strong-bad@d0.example.com', b'x@d3.example.com',
+                     b'u=v/w_x,y@d4.example.com'])
+    helo = rng.choice([b'mail.example.org', b'd1.example.com', b'he-lo.d2.example.com'])
+    return sess(hit, mf, helo, rhost, rng.choice([b'mx.local', b'receiver.example.net']), 1234567890)
+
+
+def gen_rfc_case(rng, ctx):
+    hit = rng.choice(V4 + V6)
+    names = NAMES + ['mail.example.org']
+    zone = []
+    for n in NAMES:
+        r = rng.random()
+        if r < 0.8:
+            recs = [rfc_record(rng, NAMES, hit)]
+            k = rng.random()
+            if k < 0.08:
+                recs.insert(rng.choice([0, 1]), rng.choice([b'some other text', b'google-site-verification=abc', b'v=spf2 a', b'V=SPF1 -all', b'v=spf10 a', b'']))
+            elif k < 0.12:
+                recs.append(rfc_record(rng, NAMES, hit))
+            zone.append(zT(n, recs))
+        elif r < 0.88:
+            zone.append(zE('T', n, rng.choice(ERRNOS)))
+    rhost = rfc_addr_data(rng, zone, names, hit)
+    gen_exp_records(rng, zone)
+    dom = rng.choice(NAMES)
+    if rng.random() < 0.03:
+        dom = rng.choice(['localhost', 'd0.example.com.', '.d0.example.com', 'd0..example.com', 'd0_x.example.com', 'x' * 64 + '.example.com'])
+    ctx.count('zone:rfc-random')
+    return 'spfr ' + spf_line(dom, rfc_session(rng, hit, rhost), zone)[4:]
+
+
+def gen_rfc_chain_case(rng, ctx):
+    hit = rng.choice(V4 + V6)
+    L = rng.choice([8, 9, 10, 10, 11, 11, 12, 13])
+    names = ['c%d.example.com' % i for i in range(L + 1)]
+    zone = []
+    kind = rng.choice(['include', 'redirect', 'mixed', 'cycle', 'terms', 'terms-inc'])
+    ctx.count('zone:rfc-chain-' + kind)
+    lit = ('ip6:' if ':' in hit else 'ip4:') + hit
+    leaf = rng.choice(['v=spf1 +all', 'v=spf1 -all', 'v=spf1 ' + lit + ' -all', 'v=spf1', 'v=spf1 ?all', 'v=spf1 a -all', 'v=spf1 mx', 'v=spf1 ~all exp=explain.example.com'])
+    if kind in ('include', 'redirect', 'mixed', 'cycle'):
+        for i in range(L):
+            nxt = names[i + 1]
+            if kind == 'cycle' and i == L - 1:
+                nxt = names[rng.randrange(0, L)]
+            k = kind if kind in ('include', 'redirect') else rng.choice(['include', 'redirect'])
+            pre = rng.choice(['', '', 'ip4:203.0.113.7 ', 'a:void.example.com ', '?exists:void.example.com '])
+            post = rng.choice(['', '', ' -all', ' ~all', ' ?all', ' exp=explain.example.com'])
+            if k == 'include':
+                q = rng.choice(['', '', '-', '~', '?', '+'])
+                rec = 'v=spf1 ' + pre + q + 'include:' + nxt + post
+                if rng.random() < 0.3:
+                    rec = 'v=spf1 redirect=z%d.example.com ' % i + pre + q + 'include:' + nxt
+                    zone.append(zT('z%d.example.com' % i, [rng.choice(['v=spf1', 'v=spf1 -all', 'v=spf1 +all', 'v=spf1 a'])]))
+            else:
+                rec = 'v=spf1 ' + pre + 'redirect=' + nxt
+            zone.append(zT(names[i], [rec]))
+        if kind != 'cycle':
+            zone.append(zT(names[L], [leaf]))
+    else:
+        n = rng.choice([8, 9, 10, 10, 11, 11, 12, 13])
+        terms = [rng.choice(['a:t%d.example.com', 'mx:t%d.example.com', 'exists:t%d.example.com', '?ptr:t%d.example.com', 'a:t%d.example.com/24']) % i for i in range(n)]
+        extra = rng.choice(['', ' ip4:203.0.113.7', ' ' + lit, ' all', ' -all', ' ~all', ' redirect=' + names[1], ' ' + rng.choice(['a', 'mx', 'exists']) + ':hit.example.com'])
+        if kind == 'terms':
+            zone.append(zT(names[0], ['v=spf1 ' + ' '.join(terms) + extra]))
+        else:
+            h = rng.randrange(1, n)
+            zone.append(zT(names[0], ['v=spf1 ' + ' '.join(terms[:h]) + ' include:' + names[1] + extra]))
+            zone.append(zT(names[1], ['v=spf1 ' + ' '.join(terms[h:]) + rng.choice(['', ' -all', ' ?all', ' redirect=' + names[2]])]))
+        zone.append(zT(names[2], [leaf]))
+        if ':' in hit:
+            zone.append(zQ('hit.example.com', [hit]))
+        else:
+            zone.append(zA('hit.example.com', [hit])); zone.append(zQ('hit.example.com', [hit]))
+        zone.append(zM('hit.example.com', [(10, 'hit.example.com')]))
+    rhost = rfc_addr_data(rng, zone, names[:3] + ['void.example.com'], hit, 0.03)
+    gen_exp_records(rng, zone)
+    return 'spfr ' + spf_line(names[0], rfc_session(rng, hit, rhost), zone)[4:]
+
+
+def gen_rfc_single_case(rng, ctx):
+    hit = rng.choice(V4[:2] + V6[:2])
+    rec = rfc_record(rng, NAMES[:2], hit, nterms=rng.choice([1, 1, 2]), p_bad=0.1)
+    zone = [zT('d0.example.com', [rec]), zT('d1.example.com', [rng.choice([b'v=spf1 -all', b'v=spf1 +all', b'v=spf1', b'v=spf1 ?all'])])]
+    rhost = rfc_addr_data(rng, zone, NAMES[:2] + ['mail.example.org'], hit, 0.05)
+    gen_exp_records(rng, zone)
+    ctx.count('zone:rfc-single')
+    return 'spfr ' + spf_line('d0.example.com', rfc_session(rng, hit, rhost), zone)[4:]
+
+
 ALPHA_DS = ['a', '.', '%', '{', '}', 'd', 'r', '1', '-', '/']
 
 
@@ -505,10 +716,12 @@ def corpus_cases():
 
 
 def pred(case, impl):
-    if not case.startswith('spf '):
-        # unit level operations: only memory safety / no crash
-        return None
-    return 'chk_spf ' + case[4:] + ' | ' + impl
+    if case.startswith('spfr '):
+        return 'chk_spfr ' + case[5:] + ' | ' + impl
+    if case.startswith('spf '):
+        return 'chk_spf ' + case[4:] + ' | ' + impl
+    # unit level operations: only memory safety / no crash
+    return None
 
 
 def pred_unit(case, impl):
@@ -531,14 +744,17 @@ def run(ctx):
         rng = ctx.rng
         quick = ctx.quick()
         corp = corpus_cases()
-        zone_corp = [c for c in corp if c.startswith('spf ')]
-        unit_corp = [c for c in corp if not c.startswith('spf ')]
+        zone_corp = [c for c in corp if c.startswith(('spf ', 'spfr '))]
+        unit_corp = [c for c in corp if not c.startswith(('spf ', 'spfr '))]
         ctx.count('zone:corpus', len(zone_corp))
         nz = 12000 if quick else 150000
         cases = list(zone_corp)
         cases += [gen_random_zone_case(rng, ctx) for _ in range(nz)]
         cases += [gen_chain_case(rng, ctx) for _ in range(nz // 2)]
         cases += [gen_single_record_case(rng, ctx) for _ in range(nz)]
+        cases += [gen_rfc_case(rng, ctx) for _ in range(nz)]
+        cases += [gen_rfc_chain_case(rng, ctx) for _ in range(nz // 2)]
+        cases += [gen_rfc_single_case(rng, ctx) for _ in range(nz)]
         res = vlib.differential(ctx, 'check_host', h, cases, pred=pred,
                                 nontrivial=lambda c, o: o.count(',') >= 1,
                                 corr_name='model QsmtpModel.Spf.checkHost vs qsmtpd/spf.c:check_host (+ lib/qdns.c) incl. the DNS query trace')
